@@ -37,9 +37,10 @@ address (`none` = nil pointer as for host candidates, `some 0` = the empty relat
 discovered prflx candidate).  `form` is the spelling of the address literal the candidate was created
 from (0 = the canonical literal `netip.Addr.String` prints; 1 = another literal of the same address, e.g.
 the IPv4-mapped `::ffff:10.0.0.3` for `10.0.0.3`, or an expanded IPv6 literal): `Candidate.Address()` returns
-the literal as given, `addrPort()` keeps the 4-in-6 form, and the code compares sometimes the one
-(`transportAddressEqual`: `Address()` strings) and sometimes the canonical address (`addrPortEqual`,
-`toAddrPortKey`).  Local candidates and discovered peer-reflexive candidates are always form 0. -/
+the literal as given and `addrPort()` keeps the 4-in-6 form; every comparison of the code canonicalises
+(`addrPortEqual`, `toAddrPortKey`, and — since the fix of FORMS-1/2 — `transportAddressEqual` through
+`sameAddressLiteral`), so `form` is a pure tag: it is carried and printed, never compared.  Local candidates
+and discovered peer-reflexive candidates are always form 0. -/
 structure Cand where
   uid : Nat
   ty : Nat            -- 1 host, 2 srflx, 3 prflx, 4 relay
@@ -56,9 +57,11 @@ structure Cand where
 def ipOf (addr : Nat) : Nat := addr / 16
 
 /-- `candidateBase.transportAddressEqual` (network type, address, port; TCP type is always unspecified here).
-The code requires `addrEqual` of the resolved addresses (canonical) AND `c.Address() == other.Address()` as
-STRINGS, so two literals of one address are different transport addresses here. -/
-def Cand.taEqual (a b : Cand) : Bool := a.net == b.net && a.addr == b.addr && a.form == b.form
+Since the fix of FORMS-1/2 (`sameAddressLiteral`) the `Address()` strings are compared by their canonical
+address: two literals of one address are ONE transport address, `form` plays no role.  (The candidate that is
+already listed survives a dedup with its own literal; a superseding candidate keeps the literal it was
+signalled with.) -/
+def Cand.taEqual (a b : Cand) : Bool := a.net == b.net && a.addr == b.addr
 
 /-- `candidateBase.Equal`. -/
 def Cand.equal (a b : Cand) : Bool := a.taEqual b && a.ty == b.ty && a.rel == b.rel
